@@ -38,16 +38,16 @@ func init() {
 		Opens:   []string{"Go", "Hand", "Const", "Jwks"},
 		Funcs: []FuncSpec{
 			{File: jwksFile, Name: "remoteKeySet.exactMatch", Lean: "exactMatch",
-				Params: []string{"(r : JwksSet)", "(jwkID jwsID : String)"}, Ret: RetVal, RetType: "Bool", Rename: ren},
+				Params: []string{"(r : JwksSet)", "(jwkID jwsID : String)"}, Ret: RetVal, RetType: "Bool", Rename: ren, AutoOwn: true},
 			{File: jwksFile, Name: "remoteKeySet.verifySignatureCached", Lean: "verifySignatureCached",
 				Params: []string{"(r : JwksSet)", "(cachedKeys : List JWK)", "(jws : JWS)", "(keyID alg : String)"},
-				Ret:    RetVal, RetType: "GoPair", PairStyle: true, Rename: ren},
+				Ret:    RetVal, RetType: "GoPair", PairStyle: true, Rename: ren, AutoOwn: true},
 			{File: jwksFile, Name: "remoteKeySet.verifySignatureRemote", Lean: "verifySignatureRemote",
 				Params: []string{"(r : JwksSet)", "(remote : List JWK × Option String)", "(jws : JWS)", "(keyID alg : String)"},
-				Ret:    RetVal, RetType: "GoPair", PairStyle: true, Rename: ren},
+				Ret:    RetVal, RetType: "GoPair", PairStyle: true, Rename: ren, AutoOwn: true},
 			{File: jwksFile, Name: "remoteKeySet.VerifySignature", Lean: "VerifySignature",
 				Params: []string{"(r : JwksSet)", "(cachedKeys : List JWK)", "(remote : JWS → String → String → GoPair)", "(jws : JWS)"},
-				Ret:    RetVal, RetType: "GoPair", PairStyle: true, Rename: ren},
+				Ret:    RetVal, RetType: "GoPair", PairStyle: true, Rename: ren, AutoOwn: true},
 		},
 		Extra: jwksFacts,
 	})
